@@ -779,7 +779,8 @@ func c18RunB(c *engine.Ctx, root string) {
 	mainSearch := []struct {
 		text string
 		dir  string // resolved, relative to rb; "" for none
-	}{{"", ""}, {`{search: "d2"}`, "d2"}, {`{search: "./d1"}`, "d1"}, {`{search: "ABS/d2"}`, "d2"}, {`{search: "nowhere"}`, "nowhere"}, {`{"search": "d2", other: 1}`, "d2"}}
+	}{{"", ""}, {`{search: "d2"}`, "d2"}, {`{search: "./d1"}`, "d1"}, {`{search: "ABS/d2"}`, "d2"}, {`{search: "nowhere"}`, "nowhere"}, {`{"search": "d2", other: 1}`, "d2"},
+		{`{search: "../d2"}`, "../d2"}, {`{search: "./../d1"}`, "../d1"}, {`{search: "sub/../../d2"}`, "../d2"}} // the last three leave the directory: from w1/main.jq they reach d2 and d1
 	for _, n := range []string{"x", "p/x"} {
 		for _, isData := range []bool{false, true} {
 			ext := ".jq"
